@@ -37,6 +37,16 @@ def setup():
             for c in cs:
                 s = m2_query.run_model(c)
                 print("tlc  %-22s generated=%d distinct=%d cached=%s %.1fs" % (c["name"], s["generated"], s["distinct"], s["cached"], s["wall_s"]))
+    from . import m4_render, m5_export
+
+    for c in m4_render.CONFIGS["quick"]:
+        s = m4_render.run_model(c)
+        print("tlc  %-22s generated=%d distinct=%d cached=%s %.1fs" % (c["name"], s["generated"], s["distinct"], s["cached"], s["wall_s"]))
+    for (which, tier), cs in sorted(m5_export.CONFIGS.items()):
+        if tier == "quick":
+            for c in cs:
+                s = m5_export.run_model(c)
+                print("tlc  %-22s generated=%d distinct=%d cached=%s %.1fs" % (c["name"], s["generated"], s["distinct"], s["cached"], s["wall_s"]))
     from . import m3_resolver
 
     for (prop, tier), cs in sorted(m3_resolver.CONFIGS.items()):
@@ -241,3 +251,73 @@ def c07(res):
 @check("C08")
 def c08(res):
     _m3(res, "C08", RES_RULE + "Expected = the as-built recursion AGlob, which TLC proves to satisfy RelaxedOK/StrictOK (Thm_Glob) on every transition; every vector is executed in three cache states (empty, one short of eviction, polluted by the same pattern under the other flag); differing observations are judged by TLC with RelaxedOK/StrictOK and must agree across cache states.")
+
+
+# ---------------------------------------------------------------------------------------------------------------- M4
+@check("C09")
+def c09(res):
+    from . import m4_render
+    from . import tlc as T
+    import itertools, json as _json
+
+    outs = m4_render.run(res.tier)
+    m4_render.classify(outs, res)
+    res.rule = ("TLC enumerates every tree shape up to MaxN nodes, every start node, childiter in {list, reversed, sorted by key, filter(S) |S|<=2}, every maxlevel in {0..height+2, None} "
+                "and four line-count assignments (0-3 lines per node); the rows are the definition RowsDef (segments from 'has a following sibling'), proved equal to the transcribed "
+                "recursion by TLC (Thm_Rows) together with the decoding lemma. Each vector is rendered with 7 styles (4 built-in, widths 1 and 3, a style class) and lazy/eager childiter variants and compared with "
+                "list(RenderTree), a second iteration, str(), by_attr for str/list/tuple/callable/missing selectors; Node/AnyNode/SymlinkNode reprs on a 1/7 sample.")
+    res.distinct = sum(o["vectors"] for o in outs)
+    res.exhaustive = True
+    for line in itertools.islice(T.read_lines(outs[0]["tlc"]["lines_path"]), 500, 501):
+        res.sample(_json.loads(_json.loads(line)))
+    res.assumptions += ["segment tokens are rendered to text by the harness with the style's own strings (trusted 10-line renderer)"]
+
+
+# ---------------------------------------------------------------------------------------------------------------- M5
+def _m5(res, which, prop, rule):
+    from . import m5_export
+    from . import tlc as T
+    import itertools, json as _json
+
+    outs = m5_export.run(which, res.tier)
+    m5_export.classify(outs, res, prop)
+    res.rule = rule
+    res.distinct = sum(o["vectors"] for o in outs)
+    res.exhaustive = True
+    for line in itertools.islice(T.read_lines(outs[0]["tlc"]["lines_path"]), 300, 301):
+        res.sample(_json.loads(_json.loads(line)))
+    return outs
+
+
+DICT_RULE = ("TLC enumerates every tree shape up to MaxN nodes x 3 attribute schemes (unsorted keys with a private key and `name`; empty dictionaries; one shared value object) x start node x "
+             "attriter in {None, sorted, filtering} x childiter in {list, reversed, filter(h)} x maxlevel in {None, 0..3} x JSON maxlevel override in {None, 0, 2}; the exported dictionary "
+             "(definition ExportDef) and its import (ImportDef) are emitted. TLC checks export(import(d)) = d, import(export(t)) = t, the depth cut and the JSON delegation (Thm_Dict). ")
+
+
+@check("C10")
+def c10(res):
+    _m5(res, "dict", "C10", DICT_RULE + "Replay: trees of AnyNode / Node / a user NodeMixin class, dict and OrderedDict, export compared (== and key order under sorted), arguments unchanged, import with nodecls in {AnyNode, Node, user class}, re-export.")
+    res.assumptions += ["value tokens are instantiated from a pool of 14 concrete values (nested containers, None, bool, ints, floats incl. -0.0 and 1e308, non-ASCII/control/astral strings, one shared object)"]
+
+
+@check("C11")
+def c11(res):
+    _m5(res, "dict", "C11", DICT_RULE + "Replay: JsonExporter.export/write text compared character by character with json.dumps of the emitted dictionary under 7 keyword-option sets (indent, sort_keys, ensure_ascii, separators), with and without a supplied dictexporter; JsonImporter.import_/read with and without a custom dictimporter.")
+    res.assumptions += ["json.dumps/json.loads themselves (CPython's codec) are taken as given: their fidelity is sampled by the value pool, not enumerated"]
+
+
+GRAPH_RULE = ("TLC enumerates every tree shape up to MaxN nodes x start node x every stop set x every filtered-out set x maxlevel in {None, 0..3}; it emits the definition (declared nodes = the filtered pre-order, "
+              "edges = parent-child pairs with both ends declared) and the as-built two-pass generation, and proves them equal up to the named deviation stop_edge (Thm_Graph); escaping is proved invertible (Lem_Esc). "
+              "Replay: a structural run with unambiguous identifiers (de-rendered and compared token by token; differing observations judged by TLC relative to the observed PreOrderIter) and a text-format run with "
+              "names containing quotes, backslashes, spaces, non-ASCII and collisions, custom name/attribute/edge functions, options, indent, graph/name, files and the legacy class. ")
+
+
+@check("C12")
+def c12(res):
+    _m5(res, "graph", "C12", GRAPH_RULE)
+    res.assumptions += ["the text of UniqueDotExporter's default node attribute (label=...) is not constrained by the property and not compared"]
+
+
+@check("C13")
+def c13(res):
+    _m5(res, "graph", "C13", GRAPH_RULE)
